@@ -223,9 +223,9 @@ func (s *MemStore) String() string { return "mem:" + s.Name }
 type ReadOnlyStore struct{ S *MemStore }
 
 func (r ReadOnlyStore) GetChunk(id desync.ChunkID) (*desync.Chunk, error) { return r.S.GetChunk(id) }
-func (r ReadOnlyStore) HasChunk(id desync.ChunkID) (bool, error)         { return r.S.HasChunk(id) }
-func (r ReadOnlyStore) Close() error                                     { return r.S.Close() }
-func (r ReadOnlyStore) String() string                                   { return r.S.String() }
+func (r ReadOnlyStore) HasChunk(id desync.ChunkID) (bool, error)          { return r.S.HasChunk(id) }
+func (r ReadOnlyStore) Close() error                                      { return r.S.Close() }
+func (r ReadOnlyStore) String() string                                    { return r.S.String() }
 
 // FillStore puts every chunk of idx (cut from blob) into s.
 func FillStore(s *MemStore, blob []byte, idx desync.Index) {
